@@ -732,7 +732,18 @@ func runCase(t *sink, idx int, rng *rand.Rand, steps int, allowMid bool) (hung b
 			if id, ok := c.reqs[w.held.Request()]; ok && c.batches[id[0]].canc && rng.Intn(4) != 0 {
 				kind = errCancel
 			}
+			var rb *batchT
+			if id, ok := c.reqs[w.held.Request()]; ok {
+				rb = c.batches[id[0]]
+			}
 			c.doResult(w, kind)
+			// the idle timer racing a successful result: the timer armed for
+			// the window that this result has just closed fires while / right
+			// after the result is handled (its wake carries the old window)
+			if kind == errOK && rb != nil && rb.prog && !rb.dead && !c.stopped && !c.hung && !c.skewed && rng.Intn(4) == 0 {
+				c.t.Hit("wake.racing-ok-result")
+				c.doWake(rb.id, rb.oks)
+			}
 		case r < 87 && len(c.batches) > 0:
 			b := c.batches[rng.Intn(len(c.batches))]
 			if !b.prog && rng.Intn(4) != 0 {
